@@ -67,6 +67,12 @@ var lastChild = ""
 var loopDepth = 6
 
 func (c RCallGraph) BuildRCallChain(funcName string, methodMap map[string][]string) string {
+	loopCount = 0
+	lastChild = ""
+	return c.buildRCallChain(funcName, methodMap, map[string]bool{funcName: true})
+}
+
+func (c RCallGraph) buildRCallChain(funcName string, methodMap map[string][]string, expanded map[string]bool) string {
 	if loopCount >= loopDepth {
 		return "\n"
 	}
@@ -75,12 +81,10 @@ func (c RCallGraph) BuildRCallChain(funcName string, methodMap map[string][]stri
 	if len(methodMap[funcName]) > 0 {
 		var arrayResult = ""
 		for _, child := range methodMap[funcName] {
-			if child == lastChild {
-				return ""
-			}
-			if len(methodMap[child]) > 0 {
+			if len(methodMap[child]) > 0 && !expanded[child] {
+				expanded[child] = true
 				lastChild = child
-				arrayResult = arrayResult + c.BuildRCallChain(child, methodMap)
+				arrayResult = arrayResult + c.buildRCallChain(child, methodMap, expanded)
 			}
 			if funcName == child {
 				continue
